@@ -81,6 +81,37 @@ def floor_forms_job(job):
     return {"pid": "C18", "clause": "floor_identical_across_forms_of_the_same_value", "events": out, "n": n, "eps": eps}
 
 
+def beta_forms_job(job):
+    """The labelling step with the switching cost in every equivalent form - scalars of every real type, the one-element
+    array, and per-pair vectors filled with the value - on tables with many tied row minima, a zero cost included."""
+    common.use_repo()
+    import hashlib
+    from fast_ticc import cluster_label_assignment as cla
+    T, K, b2, seed = job                      # cost = b2 / 2 (so 0, 0.5, 1, ... are all exact in every float type)
+    rng = np.random.default_rng(seed)
+    table = rng.integers(0, 3, size=(T, K)).astype(np.float64)
+    if seed % 2:
+        table += rng.integers(0, 2, size=(T, K)) * 0.5
+    v = b2 / 2.0
+    forms = [("float", float(v)), ("np.float64", np.float64(v)), ("np.float32", np.float32(v)), ("np.float16", np.float16(v)),
+             ("np.longdouble", np.longdouble(v)), ("array1", np.array([v])), ("vector", np.full(T, v)),
+             ("vector_f32", np.full(T, v, dtype=np.float32)), ("vector_be", np.full(T, v).astype(">f8"))]
+    if v == int(v):
+        forms += [("int", int(v)), ("np.int64", np.int64(v)), ("np.int8", np.int8(v)), ("np.uint8", np.uint8(v)),
+                  ("vector_i64", np.full(T, int(v), dtype=np.int64))]
+    out = []
+    for name, val in forms:
+        try:
+            labels, cost = cla.assign_point_cluster_labels(table.copy(), val)
+            d = hashlib.sha256(repr(([int(x) for x in labels], float(cost).hex())).encode()).hexdigest()[:16]
+            out.append({"key": "k", "dig": d, "completed": True, "form": "beta:" + name})
+        except Exception as ex:                          # pylint: disable=broad-except
+            out.append({"key": "k", "dig": "raised:" + type(ex).__name__, "completed": False, "form": "beta:" + name,
+                        "message": str(ex)[:160]})
+    return {"pid": "C18", "clause": "labelling_identical_across_forms_of_the_same_switching_cost", "events": out, "T": T, "K": K,
+            "beta": v}
+
+
 def build(tier):
     rng = random.Random(common.seed() * 69621 + 18)
     nbase = 2 if tier == "quick" else 8
@@ -110,6 +141,9 @@ def build(tier):
                for e2 in (-20, -14, -13, -12, -10, -4, -1, 0, 1, 2, 4, 6, 7, 8, 12)
                for _ in range(1 if tier == "quick" else 6)]
     ep += common.pmap(floor_forms_job, fl_jobs)
+    bj = [(rng.choice([6, 9, 15, 40]), rng.choice([2, 3, 4]), b2, rng.randrange(1 << 30))
+          for b2 in (0, 0, 1, 2, 3, 4, 10, 32) for _ in range(2 if tier == "quick" else 12)]
+    ep += common.pmap(beta_forms_job, bj)
     return {"groups": groups, "traces": trs, "entry": ep}
 
 
